@@ -13,7 +13,7 @@ from ..norm import (Affine, Canon, Lit, Logic, ProvCanon, affine, distribute_con
 from ..paths import Frame, cached_paths
 from .common import bound_args, call_name, iteration_segments, path_must, returned_affine, short
 
-FLOORS = {'C06.W1': 2, 'C06.W2': 1, 'C06.W3': 2, 'C06.W4': 3}
+FLOORS = {'C06.W1': 2, 'C06.W2': 1, 'C06.W3': 3, 'C06.W4': 3}
 
 FORMULA = 'max(int(self.flops / machine.cpu), int(self.task_data / machine.bandwidth))'
 
@@ -174,6 +174,24 @@ def check(repo, res, tier):
             'C06.W3', g, r, 'total <- delay model applied to the duration, or the duration',
             P if P in allowed else 'the actual duration is %s: lengthened or shortened by something '
             'other than the delay model' % short(P))
+    # ... and the plain duration is the answer only when there is no delay model (whatever else the
+    # path has tested -- a runtime below one step, a zero demand -- the model is still asked)
+    plg = Logic(ProvCanon(repo))
+    for p in cached_paths(g):
+        rets = [e for e in p.events if e.kind == 'stmt' and isinstance(e.node, ast.Return)]
+        if p.exit != 'return' or not rets or rets[0].node.value is None:
+            continue
+        if canon.p(rets[0].node.value, gfr) != 'Task.duration':
+            continue
+        must = {(l.atom, l.pol) for l in path_must(plg, p)}
+        if ('None == Task.delay', True) in must or ('truthy(Task.delay)', False) in must:
+            res.ok('C06.W3', g, rets[0].node, 'the plain duration is returned only without a delay model')
+        else:
+            res.bad('C06.W3', g, rets[0].node, 'the plain duration is returned only without a delay model',
+                    '_calc_task_delay answers with the plain duration on a path where the task HAS a delay model (the path only '
+                    'establishes %s): the model is not asked and a delay it would add is lost' % (
+                        short(' & '.join('%s%s' % ('' if pol else 'not ', a) for a, pol in sorted(must)) or 'nothing', 120)),
+                    path=p.describe())
     # total in do_work must be that call, unmodified
     tot_names = [n for n in walk_no_nested(d.node) if isinstance(n, ast.Assign) and isinstance(
         n.value, ast.Call) and call_name(n.value) == '_calc_task_delay']
